@@ -197,7 +197,11 @@ impl<T: RealNumber + ScalarOperand + AddAssign + SubAssign + MulAssign + DivAssi
 
     fn to_row_vector(self) -> Self::RowVector {
         let vec_size = self.nrows() * self.ncols();
-        self.into_shape(vec_size).unwrap()
+        // into_shape follows the memory order: bring a transposed (column-major) operand into standard layout first
+        self.as_standard_layout()
+            .into_owned()
+            .into_shape(vec_size)
+            .unwrap()
     }
 
     fn get(&self, row: usize, col: usize) -> T {
@@ -387,7 +391,10 @@ impl<T: RealNumber + ScalarOperand + AddAssign + SubAssign + MulAssign + DivAssi
     }
 
     fn reshape(&self, nrows: usize, ncols: usize) -> Self {
-        self.clone().into_shape((nrows, ncols)).unwrap()
+        self.as_standard_layout()
+            .into_owned()
+            .into_shape((nrows, ncols))
+            .unwrap()
     }
 
     fn copy_from(&mut self, other: &Self) {
